@@ -179,6 +179,15 @@ impl U256Muldiv {
     proof { lemma_view_bounds(result); lemma_view_bounds(*self); lemma_view_bounds(other); }
 //@ end
 
+//@ fn math/u256_math.rs mul in=/^impl U256Muldiv \{/ -> r stub
+    ensures self.view() * other.view() < Q4() ==> r.view() == self.view() * other.view(),
+//@ end
+
+//@ fn math/u256_math.rs shift_right in=/^impl U256Muldiv \{/ -> r stub
+    ensures shift_amount == 64 ==> r.view() == self.view() / Q(),
+        shift_amount == 96 ==> r.view() == self.view() / 0x1_0000_0000_0000_0000_0000_0000int,
+//@ end
+
 //@ fn math/u256_math.rs div in=/^impl U256Muldiv \{/ -> r stub
     requires divisor.view() != 0,
     ensures r.0.view() == self.view() / divisor.view(),
